@@ -33,14 +33,26 @@ CFG = dict(
          "exactly with the container model. part=matrix (fn=...): 5 (thorough 14) series x 12 representative rolling functions "
          "(one per driver kind and family) x input backends (Vec, Arc<Vec>, VecDeque at 3 ring offsets, Arc<VecDeque>, ndarray "
          "owned / steps 2,3,-1,-2 / mutable view) x output containers (Vec, VecDeque, Array1) x {returned, caller buffer}: each "
-         "result must equal the Vec->Vec reference bit for bit. Polars is not built into this harness (see DESIGN). nt=0: empty.",
+         "result must equal the Vec->Vec reference bit for bit. Polars is not built into this harness (see DESIGN). nt=0: empty. "
+         "part=valid (same containers, ndarray base memory with NaNs of both signs): vget(0..=len), uvget(0..len), to_opt_iter, "
+         "iter_cast::<f64|i32>, opt_iter_cast::<f64|i32> compared exactly with valid_get / the element-wise models over the "
+         "container model's own get. part=mut (every Vec1Mut container: Vec, VecDeque in every ring layout, Array1, ArrayViewMut1 "
+         "with step in {1,2,3,-1,-2} x two offsets): for every i a marker is written through get_mut(i) (0..=len, None beyond), "
+         "uget_mut(i) and try_as_slice_mut()[i] (Null when not offered, else slice length and every index), the whole sequence is "
+         "re-observed with titer() after each write and compared with the model's set (ring: buf[(head+i) mod cap]; strided: "
+         "base[off+i*step]; slice: buf[head+k] / base[off+k]); the element is restored through the same accessor.",
     theorem_hint="Props/C07.v",
     level_text="Proof: the accessor laws of the container models (ring buffer = VecDeque, strided view = ndarray, chunked array "
                "with validity = Polars, Arc, option view): checked get, iteration, length, slicing and the contiguous-slice view "
                "all describe one logical sequence (try_as_slice sound for every head offset / stride; refuted for the "
                "pre-repair memory-order accessor with a witness); the returned and caller-buffer paths agree for every "
                "add-emit-remove callback (C02_bodies_agree) and every rolling feature is total with one output per input "
-               "(Proofs/Generic.v). All model functions are functions of that logical sequence by construction. The container "
+               "(Proofs/Generic.v). Mutable accessors (34 further theorems): a write through get_mut / uget_mut at logical index i is "
+               "`update (to_list c) i v` for the ring buffer (any head offset) and the strided view (any non-zero stride), rejected "
+               "out of range, preserves well-formedness and layout, get-after-set laws; try_as_slice_mut is offered exactly when "
+               "try_as_slice is and a write through it at k IS the logical write at k (so a reversed view offers no mutable "
+               "slice; the memory-order variant is refuted with a witness); vget = get then to_opt on every container, position i "
+               "of to_opt_iter is vget(i), opt_iter_cast = cast after to_opt_iter, iter_cast = cast after get. All model functions are functions of that logical sequence by construction. The container "
                "semantics of std/ndarray/Polars are modelled; the tie is the accessor correspondence plus the exhaustive "
                "backend x container x path matrix run on the implementation.",
     level_note="Trusted: Coq kernel; the container models (std VecDeque, ndarray views, Polars chunked arrays are external "
